@@ -785,13 +785,16 @@ Definition xv_r_variables_input_types (s : schema) (d : document) : bool :=
 (* a variable usage: the name and, where the position has an expected type, that type and whether the
    position (argument or input object field) has a default value.  Two facts about the position are recorded
    for Exec/Known.v (the rules of this file do not read them): whether the usage is nested inside a list or
-   object literal, and whether it is inside an object literal written for a custom scalar. *)
+   object literal, and whether it is inside an object literal written for a custom scalar (the latter is read
+   only by the record of a repaired defect, xk_old_r_variables_defined). *)
 Record xv_usage := { xu_name : str; xu_loc : option (ty * bool); xu_nested : bool; xu_in_scalar_object : bool }.
 
 (* the usages inside a value written where `expected` is expected.  5.8.5: "the expected type of the Argument,
    ObjectField, or ListValue entry where variableUsage is located".  Where the text is silent graphql-js's
    TypeInfo is followed: an entry of a list literal written for a type that is not a list type is expected to
-   have that same type (ListValue: `isListType(listType) ? listType.ofType : listType`); a field of an object
+   have that same type, made nullable (ListValue: `listType = getNullableType(getInputType())`,
+   `isListType(listType) ? listType.ofType : listType`; as for the literals of 5.6.1, where `[null]` is a value
+   of a custom scalar `JSON!`, so is `[$v]` with a nullable `$v: JSON`); a field of an object
    literal written for a type that is not an input object type (a custom scalar) has no expected type. *)
 Fixpoint xv_value_usages (s : schema) (expected : option (ty * bool)) (nested in_so : bool) (v : value)
     {struct v} : list xv_usage :=
@@ -800,7 +803,7 @@ Fixpoint xv_value_usages (s : schema) (expected : option (ty * bool)) (nested in
   | VList l =>
       let item := match expected with
                   | Some (TList i, _) | Some (TNonNullList i, _) => Some (i, false)
-                  | Some (t, _) => Some (t, false)
+                  | Some (t, _) => Some (compat_nullable t, false)
                   | None => None
                   end in
       flat_map (xv_value_usages s item true in_so) l
